@@ -36,10 +36,58 @@ def _cmp_key(k1, c1, k2, c2) -> int:
     return 0
 
 
+def body_large(ctx: H.BaseCtx):
+    """Native only: arrays far larger than the symbolic families (size-dependent code paths).  The oracle is vectorised numpy
+    over the coefficient arrays; the order of the monomials comes from the same documented order_key."""
+    import numpoly
+
+    if ctx.symbolic:
+        return
+    case = ctx.case
+    shape = tuple(case["shape"])
+    g, r = case["graded"], case["reverse"]
+    rs = numpy.random.RandomState(case["k"])
+    names = ("q0", "q1")
+    monos = [(1, 0), (0, 1), (0, 0), (1, 1)]
+    coef = {m: rs.randint(-3, 4, size=shape) * (rs.rand(*shape) < 0.6) for m in monos}
+    p = numpoly.ndpoly(exponents=[list(m) for m in monos], shape=shape, names=names, dtype=int)
+    for key, m in zip(p.keys, monos):
+        p.values[key] = coef[m]
+    ranked = sorted(monos, key=lambda m: order_key(tuple((n, e) for n, e in zip(names, m) if e), names, g, r))  # ascending
+    want_e = numpy.zeros(shape + (2,), dtype=int)
+    want_c = numpy.zeros(shape, dtype=int)
+    for m in ranked:  # later (larger) monomials overwrite
+        nz = coef[m] != 0
+        want_e[nz] = m
+        want_c[nz] = coef[m][nz]
+    try:
+        le = numpy.asarray(numpoly.lead_exponent(p, graded=g, reverse=r))
+        lc = numpy.asarray(numpoly.tonumpy(numpoly.lead_coefficient(p, graded=g, reverse=r)))
+    except Exception as e:
+        ctx.unexpected_exception(e, "lead_* on shape %s" % (shape,))
+        return
+    if le.shape != want_e.shape or not numpy.array_equal(le, want_e):
+        bad = int(numpy.sum(numpy.any(le.reshape(want_e.shape) != want_e, axis=-1))) if le.size == want_e.size else -1
+        ctx.fail("value", "lead_exponent on an array of shape %s (graded=%s, reverse=%s) is wrong for %d element(s)" % (shape, g, r, bad))
+    if lc.shape != want_c.shape or not numpy.array_equal(lc, want_c):
+        ctx.fail("value", "lead_coefficient on an array of shape %s (graded=%s, reverse=%s) differs from the vectorised reference" % (shape, g, r))
+    # sums / decompose / isconstant on the same array
+    try:
+        parts = numpoly.decompose(p)
+        tot = numpoly.sum(parts, 0)
+        diff = tot - p
+        if any(numpy.any(c) for c in diff.coefficients):
+            ctx.fail("value", "decompose slices do not sum to the input for shape %s" % (shape,))
+    except Exception as e:
+        ctx.unexpected_exception(e, "decompose on shape %s" % (shape,))
+
+
 def body(ctx: H.BaseCtx):
     import numpoly
 
     case = ctx.case
+    if case.get("fn") == "large":
+        return body_large(ctx)
     spec = case["poly"]
     p = ctx.build(spec)
     mp = ctx.model(spec)
@@ -248,6 +296,11 @@ def gen_cases(tier: str, seed: int) -> List[Dict]:
             add("lead", S.extreme_poly_spec(names, exps, shape, dt, rng, zero_prob=0.3), graded=g, reverse=r, tag_dtype=dt)
             add("const", S.extreme_poly_spec(names, [[0, 0], [1, 0]], shape, dt, rng, zero_prob=0.5), tag_dtype=dt)
             add("set_dimensions", S.extreme_poly_spec(names, exps, shape, dt, rng, zero_prob=0.2), dimensions=rng.choice([1, 3]), tag_dtype=dt)
+    # large arrays (native): sizes around 2**8, 2**16 and a long 2-d shape
+    dummy = {"kind": "poly", "names": ["q0"], "exps": [[0]], "shape": [], "slots": [[1]], "mode": "raw"}
+    for k, shape in enumerate([(257,), (65537,), (70001,), (300, 300)] if not quick else [(257,), (70001,), (260, 260)]):
+        g, r = flags[k % 4]
+        add("large", dummy, shape=list(shape), graded=g, reverse=r, k=k)
     # dropping every term (all terms involve a dropped indeterminate)
     for shape in [(), (2,)]:
         add("set_dimensions", S.make_poly_spec("a", ("q0", "q1"), [[0, 1], [1, 1]], shape, rng, 3, zero_prob=0.0, literal_prob=0.2, mode="raw"), dimensions=1)
